@@ -12,6 +12,24 @@ NOTE = ('Trusted: CrossHair\'s symbolic models of Python builtins, z3, the harne
         'INCOMPLETE and are not counted as discharged.')
 
 CLAIMED = {
+    'C12': ('symbolic selection of valid DNAs, view parameters, producing operations and all RNG outcomes; alignment with a '
+            'DNA rebuilt from raw numbers (CrossHair/z3; operators run natively, every random draw is a solver decision)', '§3 C12',
+            'Every view (dict under all key/value/multi-choice styles, flat and nested numbers, compact and verbose JSON) '
+            'rebuilds an equal DNA; every DNA produced by iteration, random generation, parsing, cloning, JSON, Uniform/Swap '
+            'mutation and crossovers is valid and bound node-by-node to the decision points of its own positions.'),
+    'C13': ('symbolic DNA decisions validated by an independent predicate and decoded by an independent reference decoder; '
+            'decode/encode/iterate of the real templates (CrossHair/z3)', '§3 C13',
+            'For each template of the family and every valid DNA (closed path trees): no placeholder left, the decoded value '
+            'equals the reference decoding, encode is the inverse, the template is untouched, decoding is repeatable, '
+            'iteration yields space_size pairwise different values.'),
+    'C14': ('symbolic populations, fitness orders and RNG outcomes through every shipped operator and 17 composed '
+            'expressions (CrossHair/z3; operators run natively, every random draw is a solver decision)', '§3 C14',
+            'Outputs are valid and aligned DNAs, selectors return members in the documented number, inputs (DNAs, metadata, '
+            'population list) are untouched, seeded operators are deterministic under different global RNG states.'),
+    'C15': ('symbolic crash point, missing-feedback count, rewards and persistence mode; uninterrupted vs recovered '
+            'algorithm state and continuation (CrossHair/z3; algorithms run natively)', '§3 C15',
+            'For 10 algorithm configurations and every crash point 0..N: counts, population with fitness, generation counter, '
+            'de-duplication memory agree, and deterministic algorithms continue with the same proposals.'),
     'C20': ('symbolic execution of pg.to_html over values whose strings are built from symbolic metacharacter codes and '
             'symbolic view options; stdlib HTML tokenizer as oracle (CrossHair/z3)', '§3 C20',
             'Well-formedness, identical element/attribute structure to the same value rendered with harmless letters (no '
